@@ -39,6 +39,9 @@ def roundtrip_functions(bib, value):
     return p1, merged, [parts_of(p) for p in p2]
 
 
+_LL = {}
+
+
 def _lf(persons):
     if not isinstance(persons, list):
         return persons
@@ -50,17 +53,21 @@ def roundtrip_stack(bib, value, key):
     doc = "@article{k,\n  %s = {%s},\n  title = {T and t}\n}\n" % (key, value)
     if len(value) % 2:
         doc = doc.replace("\r\n", "\n").replace("\n", "\r\n")      # a CRLF document
-    lib1 = bib.parse_string(doc, append_middleware=[m.SeparateCoAuthors(), m.SplitNameParts()])
+    if "mws" not in _LL:
+        _LL["mws"] = (m.SeparateCoAuthors(), m.SplitNameParts(), m.MergeNameParts(allow_inplace_modification=False), m.MergeCoAuthors(allow_inplace_modification=False))
+    ll = len(value) % 3 == 0       # every third list goes through long-lived middleware objects
+    sep, spl, mnp, mca = _LL["mws"] if ll else (m.SeparateCoAuthors(), m.SplitNameParts(), m.MergeNameParts(allow_inplace_modification=False),
+                                                 m.MergeCoAuthors(allow_inplace_modification=False))
+    lib1 = bib.parse_string(doc, append_middleware=[sep, spl])
     if not lib1.entries:
         return None, None, "first parse: " + str([type(b).__name__ for b in lib1.blocks])
     o1 = lib1.entries[0][key]
     v1 = [parts_of(p) for p in o1]
-    text = bib.write_string(lib1, prepend_middleware=[m.MergeNameParts(allow_inplace_modification=False),
-                                                      m.MergeCoAuthors(allow_inplace_modification=False)])
+    text = bib.write_string(lib1, prepend_middleware=[mnp, mca])
     for p in o1:                      # (as above: the first library is edited after the document was written)
         p.first = ["<edited>"] + p.first
         p.last.append("<edited>")
-    lib2 = bib.parse_string(text, append_middleware=[m.SeparateCoAuthors(), m.SplitNameParts()])
+    lib2 = bib.parse_string(text, append_middleware=[sep, spl])
     if not lib2.entries:
         return v1, None, "second parse of %r: %s" % (text, [type(b).__name__ for b in lib2.blocks])
     v2 = lib2.entries[0][key]
